@@ -406,9 +406,33 @@ def enumerate_paths(body, facts=None, start=0, max_paths=50000, stop_calls=None,
             nvis = blocks.count(bb)
             if nvis > 1:
                 vp = '%s#%d' % (vp, nvis)   # value of a later loop iteration: a different variable
+            # Two different calls can have the same description (e.g. two `Parse::parse(reader)` on a stateful reader).
+            # Comparisons abstracted to an order relation, and repeated pure accessors, keep description identity; a plain
+            # call result whose labels CONFLICT with an earlier one from a different call site is a different variable.
+            ident = None
+            if oe is None:
+                oc = var
+                while oc is not None and oc.kind in ('ref', 'cast', 'place'):
+                    oc = oc.base
+                if oc is not None and oc.kind == 'call':
+                    ident = oc.site.bb
             cm = {}
             for v_, labs_, _b in conds:
                 cm[v_] = (cm[v_] & labs_) if v_ in cm else set(labs_)
+            idents = env.get('__ident__', {})
+            if ident is not None:
+                all_labs = set()
+                for labs in edges.values():
+                    all_labs |= labs
+                k = 1
+                base_vp = vp
+                while vp in idents and idents[vp] != ident and vp in cm and not (cm[vp] & all_labs):
+                    k += 1
+                    vp = '%s~%d' % (base_vp, k)
+                if vp not in idents:
+                    idents = dict(idents)
+                    idents[vp] = ident
+                    env['__ident__'] = idents
             for tb, labs in sorted(edges.items()):
                 if vp in cm and not (cm[vp] & labs):
                     continue  # infeasible: contradicts an earlier test of the same value
